@@ -166,7 +166,7 @@ def cg(A: LinearOperator, B: torch.Tensor,
 
         if _vh.ENABLED:
             _vh.emit("krylov.iter", method="cg", k=k, hit=bool(torch.all(resid_norm < stop_matrix)),
-                     improved=best_xk is xk_1)
+                     improved=best_xk is xk_1, x=xk_1)
         if torch.all(resid_norm < stop_matrix):
             converge = True
             break
@@ -184,6 +184,8 @@ def cg(A: LinearOperator, B: torch.Tensor,
         rkzk = rkzk_1
 
     xk_1 = best_xk
+    if _vh.ENABLED:
+        _vh.emit("krylov.best", method="cg", x=xk_1)
     if not converge:
         msg = ("Convergence is not achieved after %d iterations. "
                "Max norm of best resid: %.3e") % (max_niter, best_resid)
@@ -316,7 +318,7 @@ def bicgstab(A: LinearOperator, B: torch.Tensor,
         # check for the stopping conditions
         if _vh.ENABLED:
             _vh.emit("krylov.iter", method="bicgstab", k=k, hit=bool(torch.all(resid_norm < stop_matrix)),
-                     improved=best_xk is xk)
+                     improved=best_xk is xk, x=xk)
         if torch.all(resid_norm < stop_matrix):
             converge = True
             break
@@ -324,6 +326,8 @@ def bicgstab(A: LinearOperator, B: torch.Tensor,
         rho_k = rho_knew
 
     xk = best_xk
+    if _vh.ENABLED:
+        _vh.emit("krylov.best", method="bicgstab", x=xk)
     if not converge:
         msg = ("Convergence is not achieved after %d iterations. "
                "Max norm of resid: %.3e") % (max_niter, best_resid)
@@ -435,7 +439,7 @@ def gmres(A: LinearOperator, B: torch.Tensor,
 
             if _vh.ENABLED:
                 _vh.emit("krylov.iter", method="gmres", k=k, hit=bool(torch.all(resid_norm < stop_matrix)),
-                         improved=best_res is res)
+                         improved=best_res is res, x=res)
             if torch.all(resid_norm < stop_matrix):
                 converge = True
                 break
@@ -446,6 +450,8 @@ def gmres(A: LinearOperator, B: torch.Tensor,
         warnings.warn(ConvergenceWarning(msg))
 
     res = best_res
+    if _vh.ENABLED:
+        _vh.emit("krylov.best", method="gmres", x=res)
     if _vh.ENABLED:
         _vh.emit("krylov.ret", method="gmres", converged=converge, col_swapped=col_swapped, unswapped=False,
                  max_niter=max_niter)
